@@ -1,7 +1,7 @@
 use crate::optimizer::PassAction;
 use boa_ast::{
-    Expression,
-    expression::literal::LiteralKind,
+    Expression, Span, Spanned, StatementListItem,
+    expression::literal::{Literal, LiteralKind},
     statement::{If, Statement},
     visitor::{VisitWith, Visitor},
 };
@@ -91,6 +91,27 @@ impl DeadCodeElimination {
         visitor.found
     }
 
+    /// Returns `true` if every completion of `stmt` carries a value.
+    ///
+    /// The completion value of `if (c) stmt` is `UpdateEmpty(stmt, undefined)`, so `stmt` can only
+    /// stand in for the whole `if` statement when its completion value is never empty
+    /// (`1; if (true) {}` evaluates to `undefined`, `1; {}` to `1`).
+    fn always_produces_value(stmt: &Statement) -> bool {
+        match stmt {
+            Statement::Expression(_) => true,
+            Statement::Block(block) => matches!(
+                block.statement_list().statements().first(),
+                Some(StatementListItem::Statement(first)) if Self::always_produces_value(first)
+            ),
+            _ => false,
+        }
+    }
+
+    /// The statement `undefined;`: what an eliminated `if`/`while`/`for` statement evaluates to.
+    fn undefined_statement(span: Span) -> Statement {
+        Statement::Expression(Literal::new(LiteralKind::Undefined, span).into())
+    }
+
     pub(crate) fn try_eliminate_if(if_stmt: &If) -> PassAction<Statement> {
         let Some(cond_value) = Self::as_literal_bool(if_stmt.cond()) else {
             return PassAction::Keep;
@@ -102,14 +123,18 @@ impl DeadCodeElimination {
             {
                 return PassAction::Keep;
             }
+            if !Self::always_produces_value(if_stmt.body()) {
+                return PassAction::Keep;
+            }
             PassAction::Replace(if_stmt.body().clone())
         } else {
             if Self::contains_hoisted_declarations(if_stmt.body()) {
                 return PassAction::Keep;
             }
             match if_stmt.else_node() {
-                Some(alt) => PassAction::Replace(alt.clone()),
-                None => PassAction::Replace(Statement::Empty),
+                Some(alt) if Self::always_produces_value(alt) => PassAction::Replace(alt.clone()),
+                Some(_) => PassAction::Keep,
+                None => PassAction::Replace(Self::undefined_statement(if_stmt.cond().span())),
             }
         }
     }
@@ -125,7 +150,9 @@ impl DeadCodeElimination {
             if Self::contains_hoisted_declarations(while_loop.body()) {
                 return PassAction::Keep;
             }
-            return PassAction::Replace(Statement::Empty);
+            return PassAction::Replace(Self::undefined_statement(
+                while_loop.condition().span(),
+            ));
         }
 
         PassAction::Keep
@@ -153,7 +180,7 @@ impl DeadCodeElimination {
                 return PassAction::Keep;
             }
 
-            return PassAction::Replace(Statement::Empty);
+            return PassAction::Replace(Self::undefined_statement(condition.span()));
         }
 
         PassAction::Keep
